@@ -1,5 +1,5 @@
 """Helpers shared by the C02 (emission / direct image) and C20 (correlated-k) checks: real forward models of /repo
-built on in-memory cross-sections / CIA, or on pickle k-table files written to a scratch directory, and an
+built on in-memory cross-sections / CIA, or on pickle / HDF5 k-table files written to a scratch directory, and an
 independent numpy evaluation of the documented integrals (used only by the property predicates)."""
 import os
 import pickle
@@ -80,21 +80,29 @@ def install_xsecs(tables, mode='linear'):
     use_xsec()
 
 
-def write_ktables(path, tables):
+def write_ktables(path, tables, fmt='pickle'):
     """tables: {molecule: (tg, pg_bar, kcoeff[P,T,wn,g], wn, weights)} -> `<molecule>.pickle` files in the layout the
-    real loader (PickleKTable) reads; removes older pickle files of the directory first"""
+    real loader (PickleKTable) reads, or (`fmt='hdf5'`) `<molecule>.h5` files in the layout of HDF5KTable (pressure unit
+    bar); removes older k-table files of the directory first"""
     for fn in os.listdir(path):
-        if fn.endswith('.pickle'):
+        if fn.endswith(('.pickle', '.h5', '.hdf5')):
             os.remove(os.path.join(path, fn))
     for name, (tg, pg_bar, kc, wn, w) in tables.items():
         d = dict(bin_centers=np.asarray(wn, float), ngauss=len(w), t=np.asarray(tg, float),
                  p=np.asarray(pg_bar, float), kcoeff=np.asarray(kc, float), weights=np.asarray(w, float), name=name)
+        if fmt == 'hdf5':
+            import h5py
+            with h5py.File(os.path.join(path, name + '.h5'), 'w') as f:
+                for key in ('bin_centers', 'ngauss', 't', 'kcoeff', 'weights'):
+                    f.create_dataset(key, data=d[key])
+                f.create_dataset('p', data=d['p']).attrs['units'] = 'bar'
+            continue
         with open(os.path.join(path, name + '.pickle'), 'wb') as fh:
             pickle.dump(d, fh)
 
 
-def install_ktables(path, tables):
-    write_ktables(path, tables)
+def install_ktables(path, tables, fmt='pickle'):
+    write_ktables(path, tables, fmt)
     use_ktables(path)
 
 
@@ -247,11 +255,16 @@ def ref_emission(nus, el, T, mus, ws, clamp=10.0):
 
 
 # ----------------------------------------------------------------------------- one model run, either opacity mode
-def install_tables(wn, tables, cia, mode, scratch=None, weights=None):
+def install_tables(wn, tables, cia, mode, scratch=None, weights=None, kfmt='pickle', interp=None):
     """register one opacity set (call inside CacheState()): tables {mol: dict(tg, pg (bar), tab[P,T,wn] or
-    kcoeff[P,T,wn,g], optional own 'wn' grid, optional own 'weights')}; mode 'xsec' or 'ktables' (then pickle files
-    are (re)written into `scratch`, KTableCache is cleared and pointed there)"""
+    kcoeff[P,T,wn,g], optional own 'wn' grid, optional own 'weights')}; mode 'xsec' or 'ktables' (then k-table files of the
+    container `kfmt` ('pickle' | 'hdf5') are (re)written into `scratch`, KTableCache is cleared and pointed there).
+    `interp` ('linear' | 'exp'; default: whatever is configured, in-memory cross-sections linear): the temperature
+    interpolation mode, selected through the public OpacityCache().set_interpolation before the set is installed"""
     wn = np.asarray(wn, float)
+    if interp is not None:
+        from taurex.cache import OpacityCache
+        OpacityCache().set_interpolation(interp)
 
     def grid(t):
         return wn if t.get('wn') is None else np.asarray(t['wn'], float)
@@ -260,12 +273,12 @@ def install_tables(wn, tables, cia, mode, scratch=None, weights=None):
         OpacityCache().clear_cache()
         for nm, t in tables.items():
             OpacityCache().add_opacity(mem_opacity(nm, t['tg'], np.asarray(t['pg'], float) * 1e5,
-                                                   np.asarray(t['tab'], float), grid(t)))
+                                                   np.asarray(t['tab'], float), grid(t), interp or 'linear'))
         use_xsec()
     else:
         install_ktables(scratch, {nm: (t['tg'], t['pg'], np.asarray(t['kcoeff'], float), grid(t),
                                        np.asarray(t['weights'] if t.get('weights') is not None else weights, float))
-                                  for nm, t in tables.items()})
+                                  for nm, t in tables.items()}, kfmt)
     cias = []
     if cia:
         cias.append(mem_cia(cia['pair'], cia['tg'], np.asarray(cia['tab'], float), wn))
@@ -295,10 +308,10 @@ def observe_model(m, kind):
     return out
 
 
-def run_model(kind, spec, wn, tables, cia, mode, scratch=None, weights=None):
+def run_model(kind, spec, wn, tables, cia, mode, scratch=None, weights=None, kfmt='pickle', interp=None):
     """build a fresh model on the given opacity set and run it; cache state is restored afterwards"""
     with CacheState():
-        install_tables(wn, tables, cia, mode, scratch, weights)
+        install_tables(wn, tables, cia, mode, scratch, weights, kfmt, interp)
         return observe_model(build_model(kind, spec), kind)
 
 
